@@ -20,7 +20,7 @@ import common
 from common import frac_str, run_driver
 
 TRUSTED = [
-    'Lean 4.33.0 kernel; axioms of every theorem in Props/C07.lean within {propext, Classical.choice, Quot.sound}',
+    'Lean 4.33.0 kernel; axioms of every theorem in Props/C07*.lean within {propext, Classical.choice, Quot.sound}',
     'harness/clmodel.py (serialisation of constraint-object state, canonical form of compiled systems, float semantics with margins)',
     'harness/props/c07.py generators',
     'Driver.lean / Drv/Compile.lean glue; scipy.sparse triplet assembly (duplicates summed)',
